@@ -573,6 +573,7 @@ fn kind_key(kind: &'static str, class: &'static str, bits: usize) -> (&'static s
 fn run<V: Tv>(case: &Case, obs: &mut Obs) -> Result<(), Failure> {
     let endian = if case.big_endian { Endian::Big } else { Endian::Little };
     let mut back: BackModel = BTreeMap::new();
+    let mut shared_backing = None;
     let mem0: Memory<V> = match &case.backing {
         Some(sections) => {
             let mut b = backing::Memory::new(endian.clone());
@@ -590,7 +591,9 @@ fn run<V: Tv>(case: &Case, obs: &mut Obs) -> Result<(), Failure> {
                     back.insert(s.addr + i as u64, (*d, p.bits()));
                 }
             }
-            Memory::new_with_backing(endian, RC::new(b))
+            let rc = RC::new(b);
+            shared_backing = Some(rc.clone());
+            Memory::new_with_backing(endian, rc)
         }
         None => Memory::new(endian),
     };
@@ -599,21 +602,12 @@ fn run<V: Tv>(case: &Case, obs: &mut Obs) -> Result<(), Failure> {
     let mut cx = Ctx { big: case.big_endian, back, has_backing: case.backing.is_some(), deferred: Vec::new(), loads: 0, perm_queries: 0 };
 
     // equality implies identical loads - also between memories of opposite byte order: a twin
-    // over the same backing bytes but the other endianness may only compare equal to memory 0 if
+    // over the same (shared) backing but of the other endianness may only compare equal to memory 0 if
     // no load tells them apart (two adjacent backing bytes that differ do)
-    if let Some(sections) = &case.backing {
+    if let Some(rc) = shared_backing {
         let other = if case.big_endian { Endian::Little } else { Endian::Big };
-        let mut b2 = backing::Memory::new(other.clone());
-        let built = guard(|| {
-            for s in sections {
-                if s.data.is_empty() || s.addr.checked_add(s.data.len() as u64).is_none() {
-                    continue;
-                }
-                b2.set_memory(s.addr, s.data.clone(), MemoryPermissions::from_bits_truncate(s.perms));
-            }
-        });
-        if built.is_ok() {
-            let twin: Memory<V> = Memory::new_with_backing(other, RC::new(b2));
+        {
+            let twin: Memory<V> = Memory::new_with_backing(other, rc);
             match guard(|| mems[0] == twin) {
                 Ok(true) => {
                     obs.class("eq-true-across-byte-orders");
